@@ -74,8 +74,9 @@ theorem C03_parse_error_effect (cfg : Cfg) (s0 : DState) :
 is over (the machine is not inside the normal-mode body of `poll`), every continuation of the run
 is silent: nothing is handed to the application, no response head, no interim response, no body
 chunk — only flushing of bytes already buffered, reads that are discarded, and the socket
-shutdown.  (Hypothesis `headTimer ≠ active`: a first-request timer that is still armed would
-write a 408 — suspicion S2 of DESIGN §6; it is cleared as soon as one request head was decoded.) -/
+shutdown.  (Hypothesis `headTimer ≠ active`: a first-request timer that is still armed writes one
+408 when it expires — e.g. the peer half-closes before sending a request; the timer is cleared as
+soon as one request head was decoded or it has fired.) -/
 theorem C03_silent_once_closing (cfg : Cfg) (es1 es2 : List Event) (s1 s : DState) (outs1 outs : List Out)
     (h1 : runRev cfg es1 = some (s1, outs1)) (hc : Closing s1)
     (h : runRev cfg (es2 ++ es1) = some (s, outs)) :
